@@ -2,6 +2,7 @@
 pub mod bcgen;
 pub mod childrun;
 pub mod driver;
+pub mod evalh;
 pub mod lexwire;
 pub mod report;
 pub mod rng;
